@@ -5,6 +5,7 @@ package main
 // the advertised maxima are sent, in-process and over a real record-marking TCP connection.
 
 import (
+	"bytes"
 	"encoding/binary"
 	"encoding/json"
 	"fmt"
@@ -259,7 +260,7 @@ func c23DuringUpdate(r *Result, thorough bool) {
 				return
 			default:
 			}
-			v := []int{0, 4096, 0, 65536}[i%4]
+			v := []int{0, 4096, 0, 65536, 1024, 65536, 1024}[i%7]
 			w.srv.NFS.UpdateTuningOptions(func(t *absnfs.TuningOptions) { t.TransferSize = v })
 		}
 	}()
@@ -277,8 +278,40 @@ func c23DuringUpdate(r *Result, thorough bool) {
 			}
 		}
 	}
+	// WRITEs while TransferSize moves between 64 KiB and 1 KiB: whatever a WRITE stores, its reply says so — the
+	// count in an NFS3_OK reply is the number of payload bytes the (fresh) file now holds
+	writes, lied := 0, 0
+	var firstLie string
+	payload := bytes.Repeat([]byte("w"), 4096)
+	wdeadline := time.Now().Add(dur)
+	for i := 0; time.Now().Before(wdeadline); i++ {
+		name := fmt.Sprintf("wr%d", i)
+		crep := w.srv.Call(progNFS, 3, 8, cred, argCreate(w.root, name, 0, Sattr{}, nil))
+		cres := decodeNfs(8, crep.Data)
+		if crep.Err != nil || cres.Bad || cres.Status != 0 || !cres.HasFh {
+			continue
+		}
+		rep := w.srv.Call(progNFS, 3, 7, cred, argWrite(cres.Fh, 0, uint32(len(payload)), 2, payload))
+		res := decodeNfs(7, rep.Data)
+		writes++
+		if rep.Err == nil && !res.Bad && res.Status == 0 {
+			held, _ := fs.FileData("/" + name)
+			if int(res.Count) != len(held) {
+				lied++
+				if firstLie == "" {
+					firstLie = fmt.Sprintf("WRITE of %d bytes was answered NFS3_OK count=%d, the file holds %d bytes", len(payload), res.Count, len(held))
+				}
+			}
+		}
+		w.srv.Call(progNFS, 3, 12, cred, argDirop(w.root, name))
+	}
 	close(stop)
 	<-done
+	r.Histogram["writes-during-update"] += writes
+	if lied > 0 {
+		r.violate(Violation{Class: "write-count-not-what-was-stored", What: fmt.Sprintf("%d of %d WRITEs sent while UpdateTuningOptions was switching TransferSize: %s", lied, writes, firstLie),
+			Ops: []string{"read-during-tuning-update"}, Case: c23Case{Transfer: -999}})
+	}
 	r.noteCase("read-during-tuning-update", true)
 	r.Histogram["reads-during-update"] += reads
 	if empty > 0 {
